@@ -54,7 +54,10 @@ struct NodeSt {
   uint8_t allocated, retired, destroyed, dummy;
   int8_t retired_by, destroyed_by;
   int8_t retired_gen;
+  int8_t pub_cell;      // cell the node was published to (-1: never)
   uint64_t destroyed_at;
+  uint64_t pub_inv;     // stamp taken before the publishing operation started
+  uint64_t repl_resp;   // stamp taken after the operation that replaced it returned (0: still published)
 };
 
 // registry: static storage of the harness (outside the arenas => neither scheduling point nor race-checked)
@@ -167,6 +170,7 @@ struct Client {
     int id = R.n_nodes++;
     R.nodes[id].allocated = 1;
     R.nodes[id].dummy = dummy;
+    R.nodes[id].pub_cell = -1;
     vrt::TagScope ts(vrt::TAG_CLIENT);
     return new Node(id);
   }
@@ -205,6 +209,13 @@ struct Client {
   void publish(int c, bool null_it, int mark, Node* given = nullptr) {
     vrt::op_begin(1);
     Node* n = given ? given : null_it ? nullptr : alloc_node();
+    vrt::Stamp st_inv;
+    vrt::stamp(&st_inv);
+    if (n) {
+      R.nodes[n->id].pub_cell = (int8_t)c;
+      R.nodes[n->id].pub_inv = st_inv.step;
+    }
+    int old_id = -1;
     GPtr old;
     {
       OpScope os;
@@ -215,14 +226,51 @@ struct Client {
         MPtr exp = old;
         if (cells[c].compare_exchange_strong(exp, MPtr(n, (uintptr_t)mark), std::memory_order_acq_rel, std::memory_order_relaxed)) break;
       }
-      if (old.get() != nullptr)
+      cell_model[c] = GM{n ? n->id : -1, (int)mark, n};
+      if (old.get() != nullptr) {
+        old_id = old->id;
         retire(old, NG);
-      else {
+      } else {
         unreg(NG);
         old.reset();
       }
     }
     vrt::op_end();
+    if (old_id >= 0) {
+      vrt::Stamp st_resp;
+      vrt::stamp(&st_resp);
+      R.nodes[old_id].repl_resp = st_resp.step;
+    }
+  }
+
+  // value model of guards and cells (exact in single-threaded "algebra" cases)
+  struct GM {
+    int id = -1;
+    int mark = 0;
+    const void* addr = nullptr; // value equality of marked pointers is address equality (LFRC recycles node memory)
+    bool operator==(const GM& o) const { return addr == o.addr && mark == o.mark; }
+  };
+  GM cell_model[3];
+  bool algebra = false;
+  void check_models(GPtr* g, GM* gm, const char* after) {
+    if (!algebra) return;
+    for (int k = 0; k < NG; ++k) {
+      int id = g[k].get() ? g[k].get()->id : -1;
+      if (id != gm[k].id || (int)g[k].mark() != gm[k].mark || static_cast<bool>(g[k]) != (gm[k].id >= 0 || gm[k].mark != 0))
+        vrt::fail("guard_value_model", "after %s guard %d holds (object %d, mark %d) but the smart-pointer model says (object %d, mark %d)", after, k, id,
+                  (int)g[k].mark(), gm[k].id, gm[k].mark);
+      if (id >= 0 && R.nodes[id].destroyed) vrt::fail("use_after_destroy", "after %s guard %d refers to object %d which has been destroyed", after, k, id);
+    }
+  }
+  // the snapshot returned by acquire was held by the cell at some instant of the call
+  void check_snapshot(const GPtr& gp, int c, uint64_t inv, uint64_t resp) {
+    if (vrt::weak_mode() || !gp.get()) return;
+    NodeSt& s = R.nodes[gp.get()->id];
+    if (s.pub_cell != c) vrt::fail("acquire_snapshot", "acquire on cell %d returned object %d which was published to cell %d", c, gp.get()->id, s.pub_cell);
+    if (s.pub_inv > resp) vrt::fail("acquire_snapshot", "acquire returned object %d before it was published", gp.get()->id);
+    if (s.repl_resp != 0 && s.repl_resp < inv)
+      vrt::fail("acquire_snapshot", "acquire on cell %d returned object %d although the operation that replaced it had returned before the acquire was invoked", c,
+                gp.get()->id);
   }
 
   void use(int g, GPtr& gp) {
@@ -244,6 +292,8 @@ struct Client {
     bool first_op_done = false;
     {
       GPtr g[MAXG];
+      GM gm[MAXG];
+      GM lastm[3];
       MPtr last[3];
       struct RGBox {
         alignas(RG) unsigned char buf[sizeof(RG)];
@@ -257,6 +307,8 @@ struct Client {
         case OP_PUBLISH: publish(op.a, false, op.c); break;
         case OP_UNLINK: publish(op.a, true, op.c); break;
         case OP_ACQUIRE: {
+          vrt::Stamp i0, i1;
+          vrt::stamp(&i0);
           vrt::op_begin(1);
           {
             OpScope os;
@@ -265,6 +317,9 @@ struct Client {
             reg(op.b, g[op.b]);
           }
           vrt::op_end();
+          vrt::stamp(&i1);
+          check_snapshot(g[op.b], op.a, i0.step, i1.step);
+          gm[op.b] = cell_model[op.a];
           break;
         }
         case OP_ACQ_IF_EQ: {
@@ -273,6 +328,9 @@ struct Client {
             OpScope os;
             unreg(op.b);
             bool ok = g[op.b].acquire_if_equal(cells[op.a], last[op.a], op.c ? std::memory_order_seq_cst : std::memory_order_acquire);
+            if (algebra && ok != (cell_model[op.a] == lastm[op.a]))
+              vrt::fail("acquire_if_equal_mismatch", "acquire_if_equal returned %d but the source %s the expected value", (int)ok, cell_model[op.a] == lastm[op.a] ? "holds" : "does not hold");
+            gm[op.b] = ok ? cell_model[op.a] : GM{};
             if (ok) {
               if (MPtr(g[op.b]) != last[op.a]) vrt::fail("acquire_if_equal_mismatch", "acquire_if_equal returned true but the guard differs from the expected value");
               reg(op.b, g[op.b]);
@@ -282,7 +340,10 @@ struct Client {
           vrt::op_end();
           break;
         }
-        case OP_LOAD: last[op.a] = cells[op.a].load(std::memory_order_relaxed); break;
+        case OP_LOAD:
+          last[op.a] = cells[op.a].load(std::memory_order_relaxed);
+          lastm[op.a] = cell_model[op.a];
+          break;
         case OP_USE: use(op.b, g[op.b]); break;
         case OP_COPY: {
           vrt::op_begin(1);
@@ -293,6 +354,7 @@ struct Client {
             reg(op.b, g[op.b]);
           }
           vrt::op_end();
+          gm[op.b] = gm[op.a];
           break;
         }
         case OP_SELF_ASSIGN: {
@@ -313,6 +375,8 @@ struct Client {
               reg(op.b, g[op.b]);
               if (g[op.a].get() != nullptr) vrt::fail("move_leaves_source", "moved-from guard is not empty");
               unreg(op.a);
+              gm[op.b] = gm[op.a];
+              gm[op.a] = GM{};
             }
           }
           vrt::op_end();
@@ -325,6 +389,7 @@ struct Client {
             int x = R.guard[me][op.a];
             R.guard[me][op.a] = R.guard[me][op.b];
             R.guard[me][op.b] = x;
+            std::swap(gm[op.a], gm[op.b]);
           }
           break;
         }
@@ -337,6 +402,7 @@ struct Client {
             if (op.c) g[op.b].reset();
           }
           vrt::op_end();
+          gm[op.b] = GM{};
           break;
         }
         case OP_COPYCTOR: {
@@ -350,6 +416,7 @@ struct Client {
             R.guard[me][op.b] = x;
           }
           unreg(NG); // t is released at the end of this scope
+          gm[op.b] = gm[op.a];
           break;
         }
         case OP_FROM_MARKED: {
@@ -364,6 +431,7 @@ struct Client {
             g[op.b] = std::move(t);
             reg(op.b, g[op.b]);
           }
+          gm[op.b] = GM{n->id, 0, n};
           publish(op.a % ncells, false, op.c, n);
           break;
         }
@@ -375,6 +443,7 @@ struct Client {
           break;
         default: break;
         }
+        check_models(g, gm, op_names[op.kind]);
         if (!first_op_done && op.kind != OP_LOAD && op.kind != OP_USE) {
           first_op_done = true;
           if (vrt::live_blocks(vrt::TAG_DEFAULT) == blocks_at_start && prog > 1) {
@@ -471,9 +540,13 @@ struct Client {
 
   void run() {
     const bool c02 = vh::prop_is("C02"), c17 = vh::prop_is("C17");
+    algebra = vrt::param("algebra", 0) != 0;
     ncells = 1 + (int)vrt::choose(3);
     int total, max_live;
-    if (c17) {
+    if (algebra) {
+      total = 1; // one thread: the value model of guards and cells is exact
+      max_live = 1;
+    } else if (c17) {
       total = 3 + (int)vrt::choose(8);
       max_live = 1 + (int)vrt::choose(3);
     } else if (c02) {
@@ -531,6 +604,12 @@ struct Client {
     if (R.deleter_under_guard) vrt::label("deleter_ran_while_other_thread_guarding");
     if (R.switch_in_guard_op) vrt::label("context_switch_inside_guard_op");
     vrt::fp(R.hist);
+    if (algebra) {
+      int ops = 0;
+      for (int i = 0; i < nops[1]; ++i) ops += progs[1][i].kind == OP_COPY || progs[1][i].kind == OP_MOVE || progs[1][i].kind == OP_SWAP;
+      if (ops > 0) vrt::nontrivial();
+      return;
+    }
     if (!c02 && !c17) {
       if (R.deleter_under_guard && R.switch_in_guard_op) vrt::nontrivial();
       return;
